@@ -31,7 +31,9 @@ func OnNEP11Payment(from interop.Hash160, amount int, tokenID []byte, data any) 
 	self := runtime.GetExecutingScriptHash()
 	switch mode {
 	case 1:
-		if !contract.Call(nns, "transfer", contract.All, args[1].(interop.Hash160), tokenID, nil).(bool) {
+		// args[1] is handed on as it came (a ByteString): a type assertion to Hash160 would
+		// make it a Buffer, which NNS's util.Equals(from, to) never finds equal to the stored owner
+		if !contract.Call(nns, "transfer", contract.All, args[1], tokenID, nil).(bool) {
 			panic("forwarding refused")
 		}
 	case 2:
